@@ -137,9 +137,10 @@ def _qop(terms):
 
 # toy Hamiltonians with integer coefficients (with time = intervals, i.e. dt = 1, every rotation angle is a small
 # integer multiple of the parameter: exact and cheap for the solver)
-H_FINAL2 = [("Z0", 1.), ("Z1", -1.), ("X0 X1", 2.), ("Z0 Z1", 1.)]
-H_INIT2 = [("Z0", 1.), ("Z1", -2.)]
-H_NAV2 = [("Y0 Y1", 1.), ("X0", -1.)]
+# (positive: a negative concrete coefficient makes the real code compute the float 4*pi+2c, which has no exact lifting)
+H_FINAL2 = [("Z0", 1.), ("Z1", 1.), ("X0 X1", 2.), ("Z0 Z1", 1.)]
+H_INIT2 = [("Z0", 1.), ("Z1", 2.)]
+H_NAV2 = [("Y0 Y1", 1.), ("X0", 1.)]
 H_QCC4 = [("Z0", 0.5), ("Z1", 0.5), ("Z2", -0.25), ("Z3", -0.25), ("Z0 Z2", 0.125), ("X0 X1 Y2 Y3", 0.0625),
           ("Y0 X1 X2 Y3", -0.0625), ("X0 Y1", 0.03125), ("X2 Y3", 0.03125), ("Y0 Y1 X2 X3", 0.0625)]
 
@@ -205,18 +206,32 @@ def make(kind, cfg):
 
 
 # ------------------------------------------------------------------ inputs
-def vec(env, name, patt):
-    """patt: string over 0 (exact zero), + / - (symbolic, fixed sign), s (symbolic, either sign, |x|>=1e-3)"""
+def _ranged(env, name, lo, hi, **kw):
+    x = env.real(name, lo=lo, hi=hi, **kw)
+    if not env.symbolic:
+        env.assume(lo - 1e-12 <= x <= hi + 1e-12, "replay candidate outside the declared range")
+    return x
+
+
+_ODD = (3, -5, 7, 1, -3, 5, -7, 9, -1, 11, -9, 13)
+
+
+def vec(env, name, patt, salt=0):
+    """patt: string over 0 (exact zero), + / - (symbolic, fixed sign), s (symbolic, either sign, |x|>=1e-3),
+    p (concrete non-zero odd multiple of pi/2, distinct per position: keeps large vectors within reach of the solver)"""
+    import math
     out = []
     for i, ch in enumerate(patt):
         if ch == "0":
             out.append(0.0)
+        elif ch == "p":
+            out.append(_ODD[(i + 5 * salt) % len(_ODD)] * math.pi / 2)
         elif ch == "+":
-            out.append(env.real(f"{name}{i}", lo=1e-3, hi=7))
+            out.append(_ranged(env, f"{name}{i}", 1e-3, 7))
         elif ch == "-":
-            out.append(env.real(f"{name}{i}", lo=-7, hi=-1e-3))
+            out.append(_ranged(env, f"{name}{i}", -7, -1e-3))
         else:
-            x = env.real(f"{name}{i}", lo=-7, hi=7, nonzero=True)
+            x = _ranged(env, f"{name}{i}", -7, 7, nonzero=True)
             env.assume(abs(x) >= 1e-3, "")
             if env.symbolic:
                 from fractions import Fraction
@@ -309,6 +324,24 @@ def _sym_vars(*circuits):
     return vs - {num.ctx().pi}
 
 
+def _nice_angles(*circuits):
+    """every rotation angle is an exact small-denominator combination of parameters, pi and 1 (radian): only then the
+    trigonometric encoding of the state is within reach of the solver (arbitrary molecular floats are not)"""
+    for c in circuits:
+        for g in c._gates:
+            pa = g.parameter
+            if pa == "" or pa is None or isinstance(pa, str):
+                continue
+            try:
+                pp = Sym.of(pa).p
+            except Exception:
+                return False
+            for (k, vs), co in pp.t.items():
+                if k != 0 or co.denominator > 64:
+                    return False
+    return True
+
+
 def refute_by_replay(env, label, detail):
     """symbolic mode: hand the question to the concrete replay (inputs from a solver model of the path condition);
     reproduces -> violation, otherwise the obligation is reported inconclusive"""
@@ -335,7 +368,7 @@ def compare(env, c1, c2, what):
         env.check_vec_eq(pa, pb, f"{what}: gate list after updates == fresh gate list (parameters as polynomials)")
         env.check_same(len(c1._gates), len(c2._gates), f"{what}: same number of gates")
         return
-    if n <= MAX_SYM_QUBITS and len(_sym_vars(c1, c2)) <= MAX_SYM_VARS:
+    if n <= MAX_SYM_QUBITS and len(_sym_vars(c1, c2)) <= MAX_SYM_VARS and _nice_angles(c1, c2):
         _, s1, s2 = states_of(c1, c2)
         env.check_vec_eq_up_to_phase(s1, s2, lab)
         return
@@ -373,7 +406,7 @@ def h_update(env, kind, cfg, patts, canary=False):
     A = make(kind, cfg)
     n = A.n_var_params
     assert all(len(p) == n for p in patts), (kind, cfg, n, patts)
-    th = [vec(env, f"t{j}_", p) for j, p in enumerate(patts)]
+    th = [vec(env, f"t{j}_", p, salt=j) for j, p in enumerate(patts)]
     with sym_alloc(env):
         final = list(th[-1])
         if canary:
@@ -665,6 +698,13 @@ def shapes(tier, seed):
         for t in pats:
             out.append(Shape(f"update/{kind}/{cn}/{t[0]}>{t[1]}>{t[2]}", h_update, dict(kind=kind, cfg=cfg, patts=t),
                              modules=MODS, max_paths=64, group=f"update/{kind}"))
+        if kind == "upccgsd" and cfg["k"] >= 3 and cfg["mol"] == "H2":
+            # pure update path with <= 3 symbolic components: the solver itself decides the state comparison
+            per = n // cfg["k"]
+            for t in (("p" * n, "p" * n, "p" * per + ("s" + "p" * (per - 1)) * 2 + "p" * (n - 3 * per)),
+                      ("p" * n, "+" + "p" * (n - 1), "p" * (n - 2) + "s-")):
+                out.append(Shape(f"update/{kind}/{cn}/{t[0]}>{t[1]}>{t[2]}", h_update, dict(kind=kind, cfg=cfg, patts=t),
+                                 modules=MODS, max_paths=64, group=f"update/{kind}"))
         out.append(Shape(f"length/{kind}/{cn}", h_length, dict(kind=kind, cfg=cfg), modules=MODS, group=f"length/{kind}"))
         if occ is not False and occ is not None:
             out.append(Shape(f"zero/{kind}/{cn}", h_zero, dict(kind=kind, cfg=cfg, occ=None if occ == "ref" else occ),
